@@ -89,7 +89,7 @@ def handlePrim (args : List Json) : Json :=
         | "dateparse" => (c 0).map (fun a => resUnit (pyDateParse a))
         | "json_indent" => (c 0).map (fun a => resUnit (pyJsonIndent a))
         | "sorted" => (c 0).map (fun a => resUnit (pySorted a))
-        | "percent_format" => (c 0).map (fun a => resUnit (pyPercentFormat a))
+        | "percent_format" => (c 0).map (fun a => resUnit (pyPercentFormatEscaped a))
         | "intdiv" => do let a ← c 0; let b ← c 1; pure (resUnit (pyIntDiv a b))
         | "truediv" => do let a ← c 0; let b ← c 1; pure (resUnit (pyTrueDiv a b))
         | "getitem" => do let e ← (cs[0]?).bind elemOf?; let k ← c 1; pure (resUnit (pyGetitem e k))
